@@ -1,12 +1,17 @@
 SPEC_PART = dict(
     props_file="C11_freq",
     legs=[dict(family="freq", focus="codec", oracles=["prop_roundtrip"], profiles=["debug", "release"], n_quick=40, n_thorough=600,
-               panic_is_violation=True)],
-    trusted=["Frequent Items: the slot-level model of ReversePurgeItemHashMap (probing, back-shift deletion, iteration stride) is tied by "
+               panic_is_violation=True),
+          # String and u64 sketches: round trips after real streams (String: judged on the crate's observations, ops 31..34
+          # are outside the model comparison; u64: the i64 model on the same bits)
+          dict(family="freq", focus="codec-generic", oracles=["prop_generic"], profiles=["debug", "release"],
+               mask=list(range(0, 13)) + list(range(20, 26)) + list(range(40, 53)), n_quick=12, n_thorough=200, panic_is_violation=True)],
+    trusted=["Frequent Items: the Coq codec model and the theorems of this part are for i64 items only; u64 items are answered by the same model (same bits, same hash, same image bytes: harness ops 40..52), String images (u32 length + UTF-8 per item) are covered by crate-only checks: round trip equal on every accessor / row / re-serialized pairs, no panic, allocation proportional to the input",
+             "Frequent Items: the slot-level model of ReversePurgeItemHashMap (probing, back-shift deletion, iteration stride) is tied by "
              "the byte-for-byte / observation-for-observation correspondence run; the probe invariant is proved for insertions "
              "(what deserialize does), not for deletions during a purge",
              "Frequent Items: item hashes are supplied by tools/pyref.py (reference MurmurHash3, cross-checked in C16)"],
-    assumptions=["Frequent Items: fewer than 2^32 active items (active_items is a u32 in the image); total stream weight < 2^64; i64 items"],
+    assumptions=["Frequent Items: no probe run of the hash map is longer than the drift limit (1024 occupied slots in debug builds: debug_assert; 65535 in release builds: the u16 drift wraps beyond and lookups go wrong) - needs items chosen for their hashes; known findings C17-freq-drift-limit / C14-freq-drift-limit", "Frequent Items: fewer than 2^32 active items (active_items is a u32 in the image); total stream weight < 2^64; i64 items"],
     covers="freq (i64 items): deserialize(serialize(c)) = Ok c' with the same lg sizes, capacities, offset, weight and the same counters as a "
            "finite map (every lookup in the rebuilt table returns c's count), c' well-formed with a table satisfying the probe invariant; "
            "every abstract state reachable in C07's sense is well-formed (partial: the concrete bookkeeping of the crate's table is the "
